@@ -3318,6 +3318,341 @@ Proof.
 Qed.
 
 (* ------------------------------------------------------------------ *)
+(** * E'''. C02 glue: process.go obeys the protocol the inbox theorem assumes *)
+
+(* the inbox as the process sees it: 0 = never opened, 1 = open (a worker may
+   run), 2 = stopped by cleanup *)
+Definition rank (s : pst) : nat := if dead s then 2 else if istatus_stopped s then 0 else 1.
+
+Definition istep (r : nat) (e : event) : option nat :=
+  match e with
+  | InboxStart true => if r =? 0 then Some 1 else None
+  | InboxStart false => if r =? 1 then Some 1 else None
+  | InboxStop => Some 2
+  | _ => Some r
+  end.
+Fixpoint irun (t : list event) (r : nat) : option nat :=
+  match t with [] => Some r | e :: t' => match istep r e with Some r' => irun t' r' | None => None end end.
+
+Lemma irun_app t1 t2 r : irun (t1 ++ t2) r = match irun t1 r with Some r' => irun t2 r' | None => None end.
+Proof. revert r. induction t1 as [|e t1 IH]; intros r; [reflexivity|]. cbn [app irun]. destruct (istep r e); [apply IH|reflexivity]. Qed.
+
+Definition calm (e : event) : Prop := match e with InboxStart _ | InboxStop => False | _ => True end.
+Definition noIS (e : event) : Prop := match e with InboxStart _ => False | _ => True end.
+Lemma irun_calm t r : Forall calm t -> irun t r = Some r.
+Proof. induction 1 as [|e t He _ IH]; [reflexivity|]. cbn [irun]. destruct e; try contradiction; exact IH. Qed.
+Lemma hev_calm t : Forall hev t -> Forall calm t.
+Proof. apply Forall_impl. intros []; cbn; tauto. Qed.
+Lemma calm_noIS t : Forall calm t -> Forall noIS t.
+Proof. apply Forall_impl. intros []; cbn; tauto. Qed.
+
+Definition IR (s : pst) (t : list event) (s' : pst) : Prop := irun t (rank s) = Some (rank s').
+Lemma IR_trans s t1 s1 t2 s2 : IR s t1 s1 -> IR s1 t2 s2 -> IR s (t1 ++ t2) s2.
+Proof. unfold IR. intros H1 H2. rewrite irun_app, H1. exact H2. Qed.
+Lemma IR_calm s t s' : Forall calm t -> dead s' = dead s -> istatus_stopped s' = istatus_stopped s -> IR s t s'.
+Proof. unfold IR, rank. intros H -> ->. apply irun_calm, H. Qed.
+Lemma IR_cons s e t s' : calm e -> IR s t s' -> IR s (e :: t) s'.
+Proof. unfold IR. intros He H. cbn [irun]. destruct e; try contradiction; exact H. Qed.
+
+Lemma recv_calm c s mw m s' t o : recv c s mw m = (s', t, o) ->
+  Forall calm t /\ dead s' = dead s /\ istatus_stopped s' = istatus_stopped s /\ mbuf s' = mbuf s.
+Proof.
+  intros H. apply recv_inv in H as (ta & -> & H). apply do_actions_frame in H as [(_&_&Hm&_&Hd&_&Hst) Hh].
+  split; [constructor; [exact I|apply hev_calm, Hh]|]. repeat split; assumption.
+Qed.
+Lemma recv_IR c s mw m s' t o : recv c s mw m = (s', t, o) -> IR s t s'.
+Proof. intros H. apply recv_calm in H as (H1 & H2 & H3 & _). apply IR_calm; assumption. Qed.
+
+Lemma invoke_msg_IR c s e s' t o : invoke_msg c s e = (s', t, o) -> IR s t s'.
+Proof.
+  unfold invoke_msg. destruct (emsg e).
+  - intros H. apply recv_IR in H. exact H.
+  - intros [= <- <- <-]. apply IR_calm; [constructor|reflexivity|reflexivity].
+Qed.
+
+Lemma cleanup_calm_tail c s k s' t : cleanup c s k = (s', t, Normal) ->
+  exists t', t = InboxStop :: t' /\ Forall calm t' /\ dead s' = true.
+Proof.
+  intros H. apply cleanup_normal_inv in H as (s1 & t1 & E1 & -> & ->). apply recv_calm in E1 as (C1 & Hd & _).
+  eexists. split; [reflexivity|]. split; [|exact Hd].
+  apply Forall_app; split; [exact C1|]. constructor; [exact I|]. constructor; [exact I|].
+  apply Forall_app; split; [apply hev_calm, flat_discard_hev|destruct k; repeat constructor].
+Qed.
+Lemma cleanup_IR c s k s' t : cleanup c s k = (s', t, Normal) -> IR s t s'.
+Proof.
+  intros H. apply cleanup_calm_tail in H as (t' & -> & C & Hd). unfold IR. cbn [irun istep].
+  rewrite (irun_calm _ _ C). unfold rank. rewrite Hd. reflexivity.
+Qed.
+
+Lemma drain_IR c : forall l s n sk s' t o np sk', drain c s l n sk = (s', t, o, np, sk') -> IR s t s'.
+Proof.
+  induction l as [|e l IH]; intros s n sk s' t o np sk' H; cbn [drain] in H.
+  - injection H as <- <- <- <- <-. reflexivity.
+  - destruct (emsg e) eqn:Ee; [|eapply IH; exact H].
+    destruct (invoke_msg c s e) as [[s1 t1] o1] eqn:E1. apply invoke_msg_IR in E1. destruct o1.
+    + destruct (drain c s1 l (S n) sk) as [[[[s2 t2] o2] np2] sk2] eqn:E2. injection H as <- <- <- <- <-.
+      eapply IR_trans; [exact E1|eapply IH; exact E2].
+    + injection H as <- <- <- <- <-. exact E1.
+Qed.
+
+Lemma invoke_loop_IR c (Hs : stopped_safe c) : forall l s n s' t o np d,
+  invoke_loop c s l n = (s', t, o, np, d) -> IR s t s'.
+Proof.
+  induction l as [|e l IH]; intros s n s' t o np d H; cbn [invoke_loop] in H.
+  - injection H as <- <- <- <- <-. reflexivity.
+  - destruct (emsg e) eqn:Ee.
+    + destruct (invoke_msg c s e) as [[s1 t1] o1] eqn:E1. apply invoke_msg_IR in E1. destruct o1.
+      * destruct (invoke_loop c s1 l (S n)) as [[[[s2 t2] o2] np2] d2] eqn:E2. injection H as <- <- <- <- <-.
+        eapply IR_trans; [exact E1|eapply IH; exact E2].
+      * injection H as <- <- <- <- <-. exact E1.
+    + assert (Hd : exists s1 t1 o1 np1 sk1,
+          (if graceful then drain c s l (S n) [] else (s, [], Normal, S n, [])) = (s1, t1, o1, np1, sk1) /\ IR s t1 s1).
+      { destruct graceful.
+        - destruct (drain c s l (S n) []) as [[[[s1 t1] o1] np1] sk1] eqn:E1. exists s1, t1, o1, np1, sk1.
+          split; [reflexivity|]. eapply drain_IR; exact E1.
+        - exists s, [], Normal, (S n), []. split; reflexivity. }
+      destruct Hd as (s1 & t1 & o1 & np1 & sk1 & Heq & H1). rewrite Heq in H. clear Heq. destruct o1.
+      * destruct (cleanup c s1 (Some k)) as [[s2 t2] o2] eqn:E2.
+        pose proof (cleanup_safe _ _ _ _ _ _ Hs E2) as ->. apply cleanup_IR in E2.
+        injection H as <- <- <- <- <-. eapply IR_trans; [exact H1|]. eapply IR_trans; [exact E2|].
+        apply IR_calm; [apply hev_calm, discard_rest_hev|reflexivity|reflexivity].
+      * injection H as <- <- <- <- <-. exact H1.
+Qed.
+
+Lemma start_end_IR s3 : IR s3 (snd (start_end s3)) (fst (start_end s3)).
+Proof.
+  unfold start_end, IR, rank. destruct (dead s3) eqn:Hd; cbn [fst snd irun]; [rewrite Hd; reflexivity|].
+  cbn [dead istatus_stopped upd_istopped]. rewrite Hd. destruct (istatus_stopped s3); reflexivity.
+Qed.
+
+Theorem safe_IR c (Hs : stopped_safe c) :
+  (forall s msgs s' t, Invoke_s c s msgs s' t -> IR s t s') /\
+  (forall s s' t, Start_s c s s' t -> IR s t s') /\
+  (forall s b s' t, Restart_s c s b s' t -> IR s t s').
+Proof.
+  apply safe_mutind.
+  - intros s msgs s' t np d El. eapply invoke_loop_IR; eassumption.
+  - intros s msgs s1 t1 b np d s' t2 El _ IH. eapply IR_trans; [eapply invoke_loop_IR; eassumption|exact IH].
+  - intros s si ti b s' t' Ei _ IH. apply recv_IR in Ei. apply IR_cons; [exact I|]. eapply IR_trans; [exact Ei|exact IH].
+  - intros s si ti s2 ts b s' t' Ei Es _ IH. apply recv_IR in Ei. apply recv_IR in Es.
+    apply IR_cons; [exact I|]. eapply IR_trans; [exact Ei|]. apply IR_cons; [exact I|]. eapply IR_trans; [exact Es|exact IH].
+  - intros s si ti s2 ts Ei Es Hb. apply recv_IR in Ei. apply recv_IR in Es.
+    apply IR_cons; [exact I|]. eapply IR_trans; [exact Ei|]. apply IR_cons; [exact I|]. eapply IR_trans; [exact Es|].
+    apply IR_cons; [exact I|]. apply start_end_IR.
+  - intros s si ti s2 ts s3 t3 Ei Es Hb _ IH. apply recv_IR in Ei. apply recv_IR in Es.
+    apply IR_cons; [exact I|]. eapply IR_trans; [exact Ei|]. apply IR_cons; [exact I|]. eapply IR_trans; [exact Es|].
+    apply IR_cons; [exact I|]. eapply IR_trans; [exact IH|]. apply (start_end_IR (upd_mbuf s3 [])).
+  - intros s s1 t1 s' t' E1 _ IH. apply recv_IR in E1. eapply IR_trans; [exact E1|]. apply IR_cons; [exact I|exact IH].
+  - intros s s1 t1 Hmax E1. apply cleanup_IR in E1. apply IR_cons; [exact I|].
+    eapply IR_trans; [exact E1|]. apply IR_calm; [apply hev_calm, flat_discard_hev|reflexivity|reflexivity].
+  - intros s s1 t1 s' t3 Hne E1 _ IH. apply recv_IR in E1. eapply IR_trans; [exact E1|].
+    apply IR_cons; [exact I|]. apply IR_cons; [exact I|exact IH].
+Qed.
+
+Lemma RunLoop_IR c (Hs : stopped_safe c) s s' t : RunLoop_s c s s' t -> IR s t s'.
+Proof.
+  induction 1 as [s E|s E Eq|s s1 t1 s2 t2 E Eq Hi _ IH]; try reflexivity.
+  eapply IR_trans; [apply (proj1 (safe_IR c Hs) _ _ _ _ Hi)|exact IH].
+Qed.
+Lemma Exts_IR c (Hs : stopped_safe c) s xs s' t : Exts_s c s xs s' t -> IR s t s'.
+Proof.
+  induction 1 as [s|s x s1 t1 s2 t2 xs s3 t3 Ep Hl _ IH]; [reflexivity|].
+  apply ext_pre_frame in Ep as [(_&_&_&_&Hd&_&Hst) Hh].
+  eapply IR_trans; [apply IR_calm; [apply hev_calm, Hh|exact Hd|exact Hst]|].
+  eapply IR_trans; [eapply RunLoop_IR; eassumption|exact IH].
+Qed.
+Theorem Run_IR c (Hs : stopped_safe c) xs s t : Run_s c xs s t -> irun t 0 = Some (rank s).
+Proof.
+  intros [s0 t0 s1 t1 s2 t2 H0 H1 H2]. change 0 with (rank init_pst).
+  eapply IR_trans; [apply (proj1 (proj2 (safe_IR c Hs)) _ _ _ H0)|].
+  eapply IR_trans; [eapply RunLoop_IR; eassumption|eapply Exts_IR; eassumption].
+Qed.
+
+(* what the little automaton's language says *)
+Definition is_open (e : event) : bool := match e with InboxStart true => true | _ => false end.
+
+Lemma irun_from2 : forall t r', irun t 2 = Some r' -> Forall noIS t /\ r' = 2.
+Proof.
+  induction t as [|e t IH]; intros r' H; cbn [irun] in H; [injection H as <-; split; [constructor|reflexivity]|].
+  destruct e as [ | | | | | | | | | |[]| | | | | | ]; cbn [istep] in H; try discriminate;
+    destruct (IH _ H) as [Hn ->]; (split; [constructor; [exact I|exact Hn]|reflexivity]).
+Qed.
+
+Lemma irun_opens : forall t r r', irun t r = Some r' -> count_ev is_open t <= (if r =? 0 then 1 else 0).
+Proof.
+  induction t as [|e t IH]; intros r r' H; cbn [irun] in H; [cbn; destruct (r =? 0); lia|].
+  destruct e as [ | | | | | | | | | |[]| | | | | | ]; cbn [istep count_ev is_open] in *;
+    try (specialize (IH _ _ H); lia).
+  - specialize (IH _ _ H). cbn in IH. destruct (r =? 0); lia.
+  - destruct (r =? 0); [|discriminate]. specialize (IH _ _ H). cbn in IH. lia.
+  - destruct (r =? 1) eqn:E; [|discriminate]. apply Nat.eqb_eq in E. subst. specialize (IH _ _ H). cbn in *. lia.
+Qed.
+
+Lemma irun_reach1 : forall t r, irun t r = Some 1 -> (r = 1 \/ In (InboxStart true) t) /\ ~ In InboxStop t.
+Proof.
+  induction t as [|e t IH]; intros r H; cbn [irun] in H; [injection H as ->; split; [left; reflexivity|intros []]|].
+  destruct e as [ | | | | | | | | | |[]| | | | | | ]; cbn [istep] in H;
+    try (destruct (IH _ H) as [Hc Hn]; split;
+         [destruct Hc as [->|Hin]; [left; reflexivity|right; right; exact Hin]
+         |intros [Hx|Hx]; [discriminate Hx|exact (Hn Hx)]]).
+  - exfalso. destruct (irun_from2 _ _ H) as [_ Hx]. discriminate Hx.
+  - destruct (r =? 0); [|discriminate]. destruct (IH _ H) as [_ Hn]. split; [right; left; reflexivity|].
+    intros [Hx|Hx]; [discriminate Hx|exact (Hn Hx)].
+  - destruct (r =? 1) eqn:E; [|discriminate]. apply Nat.eqb_eq in E. subst. destruct (IH _ H) as [_ Hn].
+    split; [left; reflexivity|]. intros [Hx|Hx]; [discriminate Hx|exact (Hn Hx)].
+Qed.
+
+Lemma irun_split t1 e t2 r r' : irun (t1 ++ e :: t2) r = Some r' ->
+  exists ra rb, irun t1 r = Some ra /\ istep ra e = Some rb /\ irun t2 rb = Some r'.
+Proof.
+  rewrite irun_app. destruct (irun t1 r) as [ra|]; [|discriminate]. cbn [irun].
+  destruct (istep ra e) as [rb|] eqn:E; [|discriminate]. intros H. exists ra, rb. repeat split; assumption.
+Qed.
+
+(** C02: the inbox of an actor is opened at most once, never after it was
+    stopped; a later Inbox.Start (after a restart) finds it open — its CAS
+    stopped→starting fails and nothing happens.  This is the premise
+    ([valid_start]) under which the inbox layer proves that at most one
+    thread is inside Invoke. *)
+Theorem C02_inbox_opened_at_most_once_and_never_after_stop_thm :
+  forall f c xs s t, stopped_safe c -> run f c xs = (s, t) -> out_of_fuel t = false ->
+  count_ev is_open t <= 1 /\
+  (forall t1 t2, t = t1 ++ InboxStop :: t2 -> Forall noIS t2) /\
+  (forall t1 t2, t = t1 ++ InboxStart false :: t2 -> In (InboxStart true) t1 /\ ~ In InboxStop t1).
+Proof.
+  intros f c xs s t Hs H Hf. pose proof (Run_IR c Hs _ _ _ (run_sound c Hs _ _ _ _ H Hf)) as Hi.
+  split; [apply (irun_opens _ _ _ Hi)|]. split.
+  - intros t1 t2 ->. apply irun_split in Hi as (ra & rb & _ & E & H2). cbn in E. injection E as <-.
+    apply (irun_from2 _ _ H2).
+  - intros t1 t2 ->. apply irun_split in Hi as (ra & rb & H1 & E & _). cbn in E.
+    destruct (ra =? 1) eqn:Er; [|discriminate]. apply Nat.eqb_eq in Er. subst.
+    destruct (irun_reach1 _ _ H1) as [[Hx|Hx] Hn]; [discriminate Hx|]. split; assumption.
+Qed.
+
+(* the [dead] flag is what prevents a reopening: when the replay of the
+   restart buffer has stopped the actor, Start returns before inbox.Start;
+   without the test it would emit [InboxStart true] after the [InboxStop] *)
+Lemma dead_flag_prevents_reopening s3 : dead s3 = true -> istatus_stopped s3 = true ->
+  start_end s3 = (s3, []) /\
+  (upd_istopped s3 false, [InboxStart (istatus_stopped s3)]) = (upd_istopped s3 false, [InboxStart true]).
+Proof. intros Hd Hst. unfold start_end. rewrite Hd, Hst. split; reflexivity. Qed.
+
+(** C02: the lifecycle deliveries of Spawn happen before the inbox is opened *)
+Lemma recv_noIS c s mw m s' t o : recv c s mw m = (s', t, o) -> Forall noIS t.
+Proof. intros H. apply recv_calm in H as [H _]. apply calm_noIS, H. Qed.
+
+Definition first_start_shape (s' : pst) (t : list event) : Prop :=
+  (dead s' = true /\ Forall noIS t) \/
+  (dead s' = false /\ exists pre, t = pre ++ [InboxStart true] /\ Forall noIS pre).
+
+Lemma shape_prepend s' pre t : Forall noIS pre -> first_start_shape s' t -> first_start_shape s' (pre ++ t).
+Proof.
+  intros Hp [[Hd Ht]|(Hd & p & -> & Hpp)]; [left; split; [exact Hd|apply Forall_app; split; assumption]|].
+  right. split; [exact Hd|]. exists (pre ++ p). split; [apply app_assoc|apply Forall_app; split; assumption].
+Qed.
+
+Theorem first_start c :
+  (forall s msgs s' t, Invoke_s c s msgs s' t -> True) /\
+  (forall s s' t, Start_s c s s' t -> mbuf s = [] -> dead s = false -> istatus_stopped s = true -> first_start_shape s' t) /\
+  (forall s b s' t, Restart_s c s b s' t -> mbuf s = [] -> dead s = false -> istatus_stopped s = true -> first_start_shape s' t).
+Proof.
+  apply safe_mutind; try (intros; exact I).
+  - intros s si ti b s' t' Ei _ IH Hm Hd Hst. pose proof (recv_noIS _ _ _ _ _ _ _ Ei) as Hn.
+    apply recv_calm in Ei as (_ & D & S0 & M). cbn in D, S0, M.
+    change (Produce (S (inc s)) :: ti ++ t') with ((Produce (S (inc s)) :: ti) ++ t').
+    apply shape_prepend; [constructor; [exact I|exact Hn]|]. apply IH; congruence.
+  - intros s si ti s2 ts b s' t' Ei Es _ IH Hm Hd Hst.
+    pose proof (recv_noIS _ _ _ _ _ _ _ Ei) as Hn. pose proof (recv_noIS _ _ _ _ _ _ _ Es) as Hn2.
+    apply recv_calm in Ei as (_ & D & S0 & M). apply recv_calm in Es as (_ & D2 & S2 & M2). cbn in D, S0, M.
+    replace (Produce (S (inc s)) :: ti ++ EvInitialized :: ts ++ t') with ((Produce (S (inc s)) :: ti ++ EvInitialized :: ts) ++ t')
+      by (cbn; rewrite <- app_assoc; reflexivity).
+    apply shape_prepend; [constructor; [exact I|]; apply Forall_app; split; [exact Hn|constructor; [exact I|exact Hn2]]|].
+    apply IH; congruence.
+  - intros s si ti s2 ts Ei Es Hb Hm Hd Hst.
+    pose proof (recv_noIS _ _ _ _ _ _ _ Ei) as Hn. pose proof (recv_noIS _ _ _ _ _ _ _ Es) as Hn2.
+    apply recv_calm in Ei as (_ & D & S0 & M). apply recv_calm in Es as (_ & D2 & S2 & M2). cbn in D, S0, M.
+    assert (Hd2 : dead s2 = false) by congruence. assert (Hs2 : istatus_stopped s2 = true) by congruence.
+    unfold start_end. rewrite Hd2, Hs2. cbn [fst snd]. right. split; [exact Hd2|].
+    exists (Produce (S (inc s)) :: ti ++ EvInitialized :: ts ++ [EvStarted]). split.
+    + cbn. rewrite <- !app_assoc. cbn. rewrite <- app_assoc. reflexivity.
+    + constructor; [exact I|]. apply Forall_app; split; [exact Hn|]. constructor; [exact I|].
+      apply Forall_app; split; [exact Hn2|repeat constructor].
+  - intros s si ti s2 ts s3 t3 Ei Es Hb _ _ Hm Hd Hst.
+    apply recv_calm in Ei as (_ & _ & _ & M). apply recv_calm in Es as (_ & _ & _ & M2). cbn in M. exfalso. apply Hb. congruence.
+  - intros s s1 t1 s' t' E1 _ IH Hm Hd Hst. pose proof (recv_noIS _ _ _ _ _ _ _ E1) as Hn.
+    apply recv_calm in E1 as (_ & D & S0 & M).
+    replace (t1 ++ Sleep :: t') with ((t1 ++ [Sleep]) ++ t') by (rewrite <- app_assoc; reflexivity).
+    apply shape_prepend; [apply Forall_app; split; [exact Hn|repeat constructor]|]. apply IH; congruence.
+  - intros s s1 t1 Hmax E1 Hm Hd Hst. apply cleanup_calm_tail in E1 as (t' & -> & C & Hd'). left. split; [exact Hd'|].
+    constructor; [exact I|]. constructor; [exact I|]. apply Forall_app; split; [apply calm_noIS, C|apply calm_noIS, hev_calm, flat_discard_hev].
+  - intros s s1 t1 s' t3 Hne E1 _ IH Hm Hd Hst. pose proof (recv_noIS _ _ _ _ _ _ _ E1) as Hn.
+    apply recv_calm in E1 as (_ & D & S0 & M).
+    replace (t1 ++ EvRestarted (S (restarts s1)) :: Sleep :: t3) with ((t1 ++ [EvRestarted (S (restarts s1)); Sleep]) ++ t3)
+      by (rewrite <- app_assoc; reflexivity).
+    apply shape_prepend; [apply Forall_app; split; [exact Hn|repeat constructor]|]. apply IH; cbn; congruence.
+Qed.
+
+Lemma ext_pre_no_recv s x s1 t1 : ext_pre s x = (s1, t1) -> Forall norecv t1.
+Proof. intros H. apply ext_pre_frame in H as [_ Hh]. apply hev_norecv, Hh. Qed.
+
+(* A run is: the first Start on the spawner's goroutine — all its deliveries
+   (Initialized, Started, and the Stopped/Initialized/Started of restarts
+   caused by panics in them; no user message, nothing replayed) come before
+   the one [InboxStart true], its last event, so no worker exists yet —
+   followed by [RunLoop_s] / [Exts_s]: a sequence of batches each handled by
+   one [Invoke_s] of the worker ([RlStep]), separated only by the handler-free
+   events of the external operations. *)
+Theorem C02_lifecycle_deliveries_before_the_inbox_opens_thm :
+  forall f c xs s t, stopped_safe c -> run f c xs = (s, t) -> out_of_fuel t = false ->
+  exists s0 t0 s1 t1 t2,
+    start f c init_pst = (s0, t0, Normal) /\ t = t0 ++ t1 ++ t2 /\
+    first_start_shape s0 t0 /\ dlv t0 = [] /\
+    RunLoop_s c s0 s1 t1 /\ Exts_s c s1 xs s t2.
+Proof.
+  intros f c xs s t Hs H Hf. unfold run in H. destruct (spawn f c) as [s1 t1] eqn:E1.
+  rewrite (spawn_noesc c Hs _ _ _ E1) in H. destruct (ext_steps f c s1 xs) as [s2 t2] eqn:E2.
+  injection H as <- <-. unfold spawn in E1. destruct (start f c init_pst) as [[sa ta] oa] eqn:Ea.
+  pose proof (proj1 (proj2 (safe_normal c Hs f)) _ _ _ _ Ea) as ->.
+  destruct (run_loop f c sa) as [sb tb] eqn:Eb. injection E1 as <- <-.
+  apply oof_app_false in Hf as [Hf1 Hf2]. apply oof_app_false in Hf1 as [Hf0 Hf1].
+  destruct (proj1 (proj2 (safe_sound c Hs f)) _ _ _ _ Ea Hf0) as [_ Hst].
+  destruct (C04_spawn_returns_after_started_thm _ _ _ _ _ Hs Ea Hf0) as (_ & Hdl & _).
+  exists sa, ta, sb, tb, t2. split; [reflexivity|]. split; [apply app_assoc_reverse|].
+  split; [apply (proj1 (proj2 (first_start c)) _ _ _ Hst); reflexivity|]. split; [exact Hdl|].
+  split; [eapply run_loop_sound; eassumption|eapply ext_steps_sound; eassumption].
+Qed.
+
+(** C02: a restart runs inside the Invoke (or Start) that crashed: the whole
+    of tryRestart — Stopped to the failed incarnation, the event, the delay,
+    Start of the next incarnation with Initialized, Started and the replay —
+    is computed by, and its trace is a suffix of the trace of, that very call;
+    the worker's loop continues only when Invoke has returned *)
+Theorem C02_restart_runs_inside_invoke_thm :
+  (forall f c s msgs s' t o, invoke (S f) c s msgs = (s', t, o) ->
+     (exists np d, invoke_loop c s msgs 0 = (s', t, Normal, np, d) /\ o = Normal) \/
+     (exists s1 t1 b np d t2, invoke_loop c s msgs 0 = (s1, t1, Panicking b, np, d) /\
+        try_restart f c (upd_mbuf s1 (rbuf d np msgs)) b = (s', t2, o) /\ t = t1 ++ t2)) /\
+  (forall f c s s' t, run_loop (S f) c s = (s', t) -> istatus_stopped s = false -> queue s <> [] ->
+     exists s1 t1 o1, invoke f c (upd_queue s (skipn (batch c) (queue s))) (firstn (batch c) (queue s)) = (s1, t1, o1) /\
+       match o1 with
+       | Normal => exists t2, run_loop f c s1 = (s', t2) /\ t = t1 ++ t2
+       | Panicking _ => s' = s1 /\ t = t1 ++ [Escaped]
+       end).
+Proof.
+  split.
+  - intros f c s msgs s' t o H. rewrite invoke_S in H.
+    destruct (invoke_loop c s msgs 0) as [[[[s1 t1] o1] np] d] eqn:El. destruct o1.
+    + injection H as <- <- <-. left. exists np, d. split; reflexivity.
+    + destruct (try_restart f c _ internal) as [[s2 t2] o2] eqn:Et. injection H as <- <- <-.
+      right. exists s1, t1, internal, np, d, t2. repeat split. exact Et.
+  - intros f c s s' t H Hst Hq. rewrite run_loop_S, Hst in H. destruct (queue s) as [|e q] eqn:Eq; [congruence|].
+    cbv zeta in H. destruct (invoke f c _ _) as [[s1 t1] o1] eqn:Ei. exists s1, t1, o1. split; [reflexivity|].
+    destruct o1.
+    + destruct (run_loop f c s1) as [s2 t2] eqn:El. injection H as <- <-. exists t2. split; reflexivity.
+    + injection H as <- <-. split; reflexivity.
+Qed.
+
+(* ------------------------------------------------------------------ *)
 (** * F. Soundness of the oracles of ProcExec.v
 
     [selfcase c] is the case [c] whose observation is the model's own
